@@ -68,6 +68,21 @@ def generate(rng: random.Random, tier: str):
                 k += 1
                 yield {"kind": "history", "store": store, "fmt": [fmt, fmt, fmt], "pre": pre, "entry": ("nx", "rx")[k % 2],
                        "calls": [nx_graph(rng, False), nx_graph(rng, True), nx_graph(rng, k % 3 == 0)]}
+    # the CTC converter (its own guard in front of write_arrays' guard) and targets spelled with "~"
+    for store in ("path", "str", "tilde"):
+        for fmt in (2, 3):
+            for o1, o2 in ((False, True), (True, False)):
+                yield {"kind": "history", "store": store, "fmt": [fmt, fmt, fmt], "pre": "fresh", "entry": "ctc",
+                       "calls": [{"ctc": 1, "ov": False, "validate": True}, {"ctc": 2, "ov": o1, "validate": True},
+                                 {"ctc": 3, "ov": o2, "validate": True}]}
+    for fmt in (2, 3):
+        for entry in ("nx", "rx"):
+            yield {"kind": "history", "store": "tilde", "fmt": [fmt, fmt, fmt], "pre": "fresh", "entry": entry,
+                   "calls": [nx_graph(rng, False), nx_graph(rng, False), nx_graph(rng, True)]}
+        A, B, C = three_graphs(random.Random(11 + fmt))
+        for o1 in (False, True):
+            yield {"kind": "history", "store": "tilde", "fmt": [fmt, fmt, fmt], "pre": "fresh", "entry": "arrays",
+                   "calls": [dict(A, ov=False, validate=True), dict(B, ov=o1, validate=True), dict(C, ov=not o1, validate=True)]}
     for i in range(16 if tier == "quick" else 200):
         fmt = rng.choice([2, 3])
         yield {"kind": "history", "store": rng.choice(["mem", "local", "path", "str"]), "fmt": [fmt, fmt, fmt],
@@ -91,6 +106,18 @@ def do_call(c, call, store, fmt):
 
         write_arrays(store, gg.to_np(call["nids"]), gg.props_to_np(call["nprops"]), gg.to_np(call["eids"]), gg.props_to_np(call["eprops"]),
                      gg.make_metadata(call["md"]), zarr_format=fmt, structure_validation=call["validate"], overwrite=call["ov"])
+    elif c["entry"] == "ctc":
+        from geff.convert import from_ctc_to_geff
+        from harness import c15
+
+        r = random.Random(call["ctc"])
+        labs = list(range(1, call["ctc"] + 1))
+        case = c15.base_case(**c15.dataset_from_presence(r, 2, {l: [0, 1] for l in labs}, {}))
+        root = c15.scratch_dir()
+        try:
+            from_ctc_to_geff(c15.write_dataset(case, root), store, overwrite=call["ov"], zarr_format=fmt)
+        finally:
+            shutil.rmtree(root, ignore_errors=True)
     elif c["entry"] == "nx":
         import networkx as nx
 
@@ -138,21 +165,42 @@ def foreign(tree):
     return {"attrs": [kv for kv in tree["attrs"] if kv[0] != "geff"], "ch": [kv for kv in tree["ch"] if kv[0] not in ("nodes", "edges")]}
 
 
+def open_target(c):
+    """(argument handed to the library, handle used to observe the location, directory to remove afterwards)"""
+    from harness.c01 import scratch_dir
+
+    kind = c["store"]
+    name = "h.geff" if c["entry"] == "ctc" else "h.zarr"
+    if kind == "tilde":  # "~/h.zarr" with HOME pointing into the scratch area
+        home = scratch_dir() / "home"
+        shutil.rmtree(home, ignore_errors=True)
+        home.mkdir(parents=True)
+        os.environ["HOME"] = str(home)
+        return f"~/{name}", home / name, home
+    if c["entry"] == "ctc":
+        p = scratch_dir() / name
+        shutil.rmtree(p, ignore_errors=True)
+        return (p if kind == "path" else str(p)), p, p
+    store, path = open_store(kind, "h")
+    return store, store, path
+
+
 def run_impl(c):
     from geff.core_io import read_to_memory
 
     it = Interner()
-    store, path = open_store(c["store"], "h")
+    old_home = os.environ.get("HOME")
+    store, real, path = open_target(c)
     obs = {"steps": []}
     try:
-        prepare(store, c["pre"], c["fmt"][0])
-        pre_tree = dump_tree(store, it)
+        prepare(real, c["pre"], c["fmt"][0])
+        pre_tree = dump_tree(real, it)
         coq_calls, coq_steps = [], []
         modelled = c["entry"] == "arrays" and len(set(c["fmt"])) == 1
         for call, fmt in zip(c["calls"], c["fmt"]):
-            before_snap = snapshot(store)
-            before_tree = dump_tree(store, it)
-            existed = has_geff(store)
+            before_snap = snapshot(real)
+            before_tree = dump_tree(real, it)
+            existed = has_geff(real)
             step = {"existed": existed, "ov": call["ov"]}
             if modelled:
                 try:
@@ -170,8 +218,8 @@ def run_impl(c):
                 step["res"] = ["ok"]
             except Exception as e:
                 step["res"] = ["err", exn_name(e), str(e)[:100]]
-            after_tree = dump_tree(store, it)
-            step["bytes_identical"] = snapshot(store) == before_snap
+            after_tree = dump_tree(real, it)
+            step["bytes_identical"] = snapshot(real) == before_snap
             # what a write of the same graph to an EMPTY location gives
             if step["res"][0] == "ok" and c["entry"] == "arrays":
                 from zarr.storage import MemoryStore
@@ -183,7 +231,7 @@ def run_impl(c):
                 step["same_as_fresh"] = strip(after_tree) == strip(ref_tree)
                 step["foreign_kept"] = foreign(after_tree) == foreign(before_tree) or (not existed and foreign(after_tree) == foreign(before_tree))
                 try:
-                    back = read_to_memory(store)
+                    back = read_to_memory(real)
                     exp_n = gg.props_to_np(call["nprops"]) or {}
                     if call["nids"]["shape"][0] == 0 and call["nprops"] is not None:
                         for ax in call["md"].get("axes") or []:
@@ -191,10 +239,16 @@ def run_impl(c):
                     step["diff"] = compare_graph(gg.to_np(call["nids"]), gg.to_np(call["eids"]), exp_n, gg.props_to_np(call["eprops"]) or {}, back)
                 except Exception as e:
                     step["diff"] = f"read raised {type(e).__name__}: {e}"[:120]
-            if step["res"][0] == "ok" and c["entry"] != "arrays":
+            if step["res"][0] == "ok" and c["entry"] == "ctc":
+                try:
+                    back = read_to_memory(real)
+                    step["lib_back"] = {"ids": sorted(int(x) for x in back["node_ids"]), "n_edges": int(len(back["edge_ids"]))}
+                except Exception as e:
+                    step["lib_back"] = f"read raised {type(e).__name__}: {e}"[:120]
+            elif step["res"][0] == "ok" and c["entry"] != "arrays":
                 step["foreign_kept"] = foreign(after_tree) == foreign(before_tree)
                 try:
-                    back = read_to_memory(store)
+                    back = read_to_memory(real)
                     step["lib_back"] = {"ids": sorted(int(x) for x in back["node_ids"]),
                                         "edges": sorted([int(a), int(b)] for a, b in back["edge_ids"]),
                                         "nprops": sorted(back["node_props"]), "eprops": sorted(back["edge_props"]),
@@ -209,11 +263,13 @@ def run_impl(c):
             else:
                 modelled = False
         if modelled and tree_printable(pre_tree):
-            kind = "KPath" if c["store"] in ("path", "str") else "KObj"
+            kind = "KPath" if c["store"] in ("path", "str", "tilde") else "KObj"
             obs["coq"] = f"(IHist {kind} {c_otree(pre_tree)} {clist(coq_calls)}, OHist {clist(coq_steps)})"
     finally:
         if path is not None:
             shutil.rmtree(path, ignore_errors=True)
+        if old_home is not None:
+            os.environ["HOME"] = old_home
     return obs
 
 
@@ -224,7 +280,7 @@ def coq_case(c, o):
 def oracle(c, o):
     fmt_change = len(set(c["fmt"])) > 1
     for i, (call, st) in enumerate(zip(c["calls"], o["steps"])):
-        tags = {"step": i, "store": "object" if c["store"] in ("mem", "local") else "path", "entry": c["entry"], "fmt_change": fmt_change}
+        tags = {"step": i, "store": "object" if c["store"] in ("mem", "local") else ("tilde" if c["store"] == "tilde" else "path"), "entry": c["entry"], "fmt_change": fmt_change}
         if fmt_change:
             tags["formats"] = f"{c['fmt'][0]}->{c['fmt'][1]}"
         if st["existed"] and not call["ov"]:
@@ -242,7 +298,14 @@ def oracle(c, o):
                                "(something of the previous graph survives)", dict(tags, why="stale-survivor"))
             if st.get("diff"):
                 return Failure(c, slim(o), f"call {i}: after overwrite the store reads as a different graph: {st['diff']}", dict(tags, why="overwrite-differs"))
-        if st["existed"] and call["ov"] and c["entry"] != "arrays" and not fmt_change:
+        if st["existed"] and call["ov"] and c["entry"] == "ctc":
+            if st["res"][0] != "ok":
+                return Failure(c, slim(o), f"call {i}: CTC converter: overwrite of an existing geff raised {st['res'][1]}: {st['res'][2]}",
+                               dict(tags, why="overwrite-raises", exc=st["res"][1]))
+            if st.get("lib_back") != {"ids": list(range(2 * call["ctc"])), "n_edges": call["ctc"]}:
+                return Failure(c, slim(o), f"call {i}: CTC converter: after overwrite the store reads as {st.get('lib_back')}, converted "
+                               f"{2 * call['ctc']} nodes / {call['ctc']} edges", dict(tags, why="overwrite-differs"))
+        elif st["existed"] and call["ov"] and c["entry"] != "arrays" and not fmt_change:
             if st["res"][0] != "ok":
                 return Failure(c, slim(o), f"call {i}: {c['entry']} writer: overwrite of an existing geff raised {st['res'][1]}: {st['res'][2]}",
                                dict(tags, why="overwrite-raises", exc=st["res"][1]))
